@@ -9,7 +9,7 @@ import json, os, subprocess, sys, glob
 here = os.path.dirname(os.path.dirname(os.path.abspath(__file__)))
 prop, sub, why = sys.argv[1:4]
 for p in glob.glob(os.path.join(here, "evidence/violations/%s-*.json" % prop)): os.remove(p)
-subprocess.run([os.path.join(here, "check"), prop], env=dict(os.environ, VERIF_EVID_DIR="/tmp/ev_triage"), capture_output=True)
+subprocess.run([os.path.join(here, "check"), prop] + (["--tier", os.environ["TIER"]] if os.environ.get("TIER") else []), env=dict(os.environ, VERIF_EVID_DIR="/tmp/ev_triage"), capture_output=True)
 kf = json.load(open(os.path.join(here, "known_findings.json")))
 have = {(e["property"], e["rule"], e["construct"], e["detail"]) for e in kf["findings"]}
 n = 0
